@@ -4,7 +4,8 @@
      _truncation_checks                            -> header_init
      PARRECHeader._get_n_slices/_get_n_vols/
        _calc_data_shape                            -> n_slices, n_vols, n_used
-     PARRECHeader._strict_sort_order               -> strict_sort_order  (two np.lexsort calls)
+     PARRECHeader._strict_sort_volumes /
+       _strict_sort_order (after the S-C20b repair)   -> strict_sort_volumes, strict_sort_order
      PARRECHeader._lax_sort_order                  -> lax_sort_order
      PARRECHeader.get_sorted_slice_indices         -> sorted_slice_indices
      PARRECHeader.get_data_scaling                 -> data_scaling
@@ -69,14 +70,41 @@ Definition vol_numbers (l : list Z) : list Z := vol_numbers_aux [] l.
 Definition vol_slices (sn vn : list Z) (v : Z) : list Z :=      (* slice_nos[vol_nos == v] *)
   map fst (filter (fun p => snd p =? v) (combine sn vn)).
 
-(* None = ValueError (slice number outside 1..slice_max) *)
-Definition vol_is_full (sn : list Z) (smax : Z) : option (list bool) :=
+(* None = ValueError (slice number outside 1..slice_max); vn = the vol_nos argument *)
+Definition vol_is_full_with (sn vn : list Z) (smax : Z) : option (list bool) :=
   let sset := zrange 1 smax in
   if negb (forallb (fun s => memz s sset) sn) then None
   else
-    let vn := vol_numbers sn in
     let tab := map (fun v => (v, set_eqb (vol_slices sn vn v) sset)) (nodup Z.eq_dec vn) in
     Some (map (fun v => lookup v tab true) vn).
+(* vol_nos=None: inferred with vol_numbers *)
+Definition vol_is_full (sn : list Z) (smax : Z) : option (list bool) :=
+  vol_is_full_with sn (vol_numbers sn) smax.
+
+(* vol_numbers over (group, slice) pairs: the counter dict keyed by tuples *)
+Definition pair_eqb (p q : Z * Z) : bool := (fst p =? fst q) && (snd p =? snd q).
+Fixpoint vol_numbers2_aux (seen l : list (Z * Z)) : list Z :=
+  match l with
+  | [] => []
+  | p :: r => Z.of_nat (length (filter (pair_eqb p) seen)) :: vol_numbers2_aux (p :: seen) r
+  end.
+Definition vol_numbers2 (l : list (Z * Z)) : list Z := vol_numbers2_aux [] l.
+
+(* group_nos: 0 for the first row, +1 at every row that differs from its predecessor
+   (np.cumsum of is_new_group) *)
+Fixpoint zl_eqb (a b : list Z) : bool :=
+  match a, b with
+  | [], [] => true
+  | x :: a', y :: b' => (x =? y) && zl_eqb a' b'
+  | _, _ => false
+  end.
+Fixpoint group_nos_aux (prev : list Z) (g : Z) (l : list (list Z)) : list Z :=
+  match l with
+  | [] => []
+  | x :: r => let g' := if zl_eqb x prev then g else g + 1 in g' :: group_nos_aux x g' r
+  end.
+Definition group_nos (l : list (list Z)) : list Z :=
+  match l with [] => [] | x :: r => 0 :: group_nos_aux x 0 r end.
 
 (* ------------------------------------------------------------ records *)
 Record rec := mkRec {
@@ -91,7 +119,7 @@ Definition dummy : rec := mkRec [] 0 (-1) 0 0 0 [] [].
 Definition column (f : rec -> list Z) (j : nat) (recs : list rec) : list Z :=
   map (fun r => nth j (f r) 0) recs.
 
-Inductive err := ErrTruncated | ErrSliceRange.
+Inductive err := ErrTruncated | ErrSliceRange | ErrNoVolume.
 Inductive res (A : Type) := Ok (a : A) | Err (e : err).
 Arguments Ok {A}. Arguments Err {A}.
 
@@ -108,28 +136,44 @@ Definition header_init (permit : bool) (expd : list Z) (smax : Z) (recs : list r
                       else Ok tt
        end.
 
-Definition n_slices (recs : list rec) : nat := n_distinct (map sl recs).
-Definition n_vols (smax : Z) (recs : list rec) : option nat :=
-  let sn := map sl recs in
-  match vol_is_full sn smax with
+Definition key2 (v : Z) (f : bool) : list Z := [v; b2z (negb f)].
+(* _strict_sort_volumes: initial_sort_order, vol_nos and is_full (both in that order) *)
+Definition strict_sort_volumes (smax : Z) (recs : list rec) : option (list nat * list Z * list bool) :=
+  let iso := lexsort (map keys recs) in                       (* initial_sort_order *)
+  let sn := select 0 iso (map sl recs) in                     (* sorted_slices *)
+  let labs_ := select [] iso (map (fun r => tl (keys r)) recs) in   (* sorted_labels, one row per record *)
+  let gn := group_nos labs_ in
+  let rn := vol_numbers2 (combine gn sn) in                   (* repeat_nos *)
+  let vn := map (fun p => fst p * (fold_right Z.max 0 rn + 1) + snd p) (combine gn rn) in
+  match vol_is_full_with sn vn smax with
   | None => None
-  | Some full => Some (n_distinct (map fst (filter snd (combine (vol_numbers sn) full))))
+  | Some full => Some (iso, vn, full)
   end.
+
+Definition n_slices (recs : list rec) : nat := n_distinct (map sl recs).
+Definition n_vols (strict : bool) (smax : Z) (recs : list rec) : option nat :=
+  if strict then
+    match strict_sort_volumes smax recs with
+    | None => None
+    | Some (_, vn, full) => Some (n_distinct (map fst (filter snd (combine vn full))))
+    end
+  else
+    let sn := map sl recs in
+    match vol_is_full sn smax with
+    | None => None
+    | Some full => Some (n_distinct (map fst (filter snd (combine (vol_numbers sn) full))))
+    end.
 (* np.prod(self.get_data_shape()[2:]); the shape is 3-D unless n_vols > 1 *)
-Definition n_used (smax : Z) (recs : list rec) : option nat :=
-  match n_vols smax recs with
+Definition n_used (strict : bool) (smax : Z) (recs : list rec) : option nat :=
+  match n_vols strict smax recs with
   | None => None
   | Some nv => Some (if Nat.ltb 1 nv then n_slices recs * nv else n_slices recs)%nat
   end.
 
-Definition key2 (v : Z) (f : bool) : list Z := [v; b2z (negb f)].
 Definition strict_sort_order (smax : Z) (recs : list rec) : option (list nat) :=
-  let iso := lexsort (map keys recs) in                       (* initial_sort_order *)
-  let sn := select 0 iso (map sl recs) in                     (* slice_nos[initial_sort_order] *)
-  let vn := vol_numbers sn in
-  match vol_is_full sn smax with
+  match strict_sort_volumes smax recs with
   | None => None
-  | Some full =>
+  | Some (iso, vn, full) =>
     Some (select O (lexsort (map (fun p => key2 (fst p) (snd p)) (combine vn full))) iso)
   end.
 
@@ -144,7 +188,7 @@ Definition lax_sort_order (smax : Z) (recs : list rec) : option (list nat) :=
 
 Definition sorted_slice_indices (strict : bool) (smax : Z) (recs : list rec) : option (list nat) :=
   match (if strict then strict_sort_order smax recs else lax_sort_order smax recs),
-        n_used smax recs with
+        n_used strict smax recs with
   | Some order, Some n => Some (firstn n order)
   | _, _ => None
   end.
@@ -185,7 +229,8 @@ Section Float.
     match header_init permit expd smax recs with
     | Err e => Err e
     | Ok _ =>
-      match sorted_slice_indices strict smax recs, n_vols smax recs with
+      match sorted_slice_indices strict smax recs, n_vols strict smax recs with
+      | Some _, Some O => Err ErrNoVolume      (* _calc_data_shape: no complete volume (S-C20c repair) *)
       | Some idx, Some nv =>
         let sc := data_scaling fp idx recs in
         Ok (idx, mkObs (n_slices recs) nv (unscaled idx recs) (fst sc) (snd sc)
